@@ -135,6 +135,8 @@ func seedsFor(k Kind, tier string) []mc.Seed[*StoreWorld] {
 			storeSeed("one-page-32+buffer", opAddRun(0, 0, 32, 1), opAddRun(0, 64, 3, 40)),
 			storeSeed("pages-with-gap", opAddW(0, 0, 2), opAddW(0, 320, 2), opAdd(0, 5), opAdd(0, 700)),
 			storeSeed("pages-cleared", opAddW(0, 0, 2), opAddW(0, -320, 2), opAddRun(0, 0, 5, 1), opClear(0)),
+			// a single page cleared: re-adding the same index re-uses the same page slot
+			storeSeed("one-page-cleared", opAddW(0, 0, 2), opAdd(0, 5), opClear(0)),
 		)
 		if tier == "thorough" {
 			out = append(out,
